@@ -684,7 +684,7 @@ func (dc *ClientDnsConnection) AutodetectFragmentSize() (uint32, error) {
 	var max uint32 = 0
 
 	log.Debugf("Autoprobing max downstream fragment size... (skip with -m fragsize)")
-	for !dc.Closed() && (fragmentRange >= 8 || max < 300) {
+	for !dc.Closed() && fragmentRange > 0 && (fragmentRange >= 8 || max < 300) {
 		/* stop the slow probing early when we have enough bytes anyway */
 		for i := 0; !dc.Closed() && i < 3; i++ {
 			resp, err := dc.SendFragmentSizeTest(proposed, secs(1))
@@ -718,21 +718,26 @@ func (dc *ClientDnsConnection) AutodetectFragmentSize() (uint32, error) {
 				max = proposed
 			}
 
-			if max < 0 {
-				break
-			}
+			/* we got a usable reply for this size: no further retries */
+			break
+		}
 
-			fragmentRange = fragmentRange >> 1
+		/* Narrow the search after every probed size, whether it worked or not (a size that fails
+		   must make the next proposal smaller instead of being probed again forever) */
+		fragmentRange = fragmentRange >> 1
 
-			if max == proposed {
-				/* Try bigger */
-				log.Tracef("%d ok, will try %d next.. ", proposed, proposed+fragmentRange)
-				proposed += fragmentRange
-			} else {
-				/* Try smaller */
-				log.Tracef("%d not ok, will try %d next.. ", proposed, proposed-fragmentRange)
-				proposed -= fragmentRange
+		if max == proposed {
+			/* Try bigger */
+			log.Tracef("%d ok, will try %d next.. ", proposed, proposed+fragmentRange)
+			proposed += fragmentRange
+		} else {
+			/* Try smaller */
+			if fragmentRange >= proposed {
+				/* never step below zero: continue in the lower half */
+				fragmentRange = proposed >> 1
 			}
+			log.Tracef("%d not ok, will try %d next.. ", proposed, proposed-fragmentRange)
+			proposed -= fragmentRange
 		}
 	}
 	if dc.Closed() {
